@@ -49,7 +49,8 @@ REQUIRED = ["ops_executed", "rechecks", "handle_reads", "node_writes", "detach_n
             "tree_segments_checked", "adjacency_checked", "pid_writes",
             "worlds_with_other_column_dtypes", "relatives_checked", "mixed_owner_containers",
             "views_built_by_caller", "views_built_from_a_range", "pid_writes_on_tree_copies",
-            "long_views_over_unordered_rows", "views_walked_while_editing"]
+            "long_views_over_unordered_rows", "views_walked_while_editing",
+            "views_compared_under_custom_column_names", "big_tree_relations_checked"]
 FLOOR = {"quick": 250, "thorough": 5000}
 SHARDS = {"quick": 8, "thorough": 16}
 
@@ -619,9 +620,83 @@ def run(ctx):
         wrote, copied = execute(ctx, case) or (0, 0)
         ctx.case(case, nontrivial=wrote >= 1 and copied >= 1,
                  klass=f"{rc['shape']}/{rc['numbering']}")
+        if k % 6 == 2 and rc["n"] >= 3:
+            _views_under_custom_names(ctx, case)
     _path_node_write_probe(ctx)
+    if ctx.shard == 1 % ctx.nshards:
+        _big_tree_relations(ctx)
+
+
+def _dump_view(v):
+    return [np.array(v.x()), np.array(v.y()), np.array(v.z()), np.array(v.r()), np.array(v.type()),
+            np.array(v.id()), np.array(v.pid()), np.array(v.origin_id()), np.array(v.xyzr()), len(v)]
+
+
+def _all_views(t):
+    """Everything the views of one tree report, as plain data (for the custom-names comparison):
+    attached views, detached copies, and the detached copies again after the owner was edited."""
+    brs, ps, segs = t.get_branches(), t.get_paths(), t.get_segments()
+    out = {"branches": [_dump_view(b) for b in brs], "paths": [_dump_view(p) for p in ps][:6],
+           "segments": [_dump_view(s_) for s_ in list(segs)[:8]]}
+    k = t.number_of_nodes() // 2
+    nd = t.node(k)
+    out["node"] = [nd.x, nd.y, nd.z, nd.r, int(nd.type), int(nd.id), int(nd.pid),
+                   np.array(nd.xyz()), np.array(nd.xyzr())]
+    det = [b.detach() for b in brs[:4]] + [p.detach() for p in ps[:3]] + \
+          [s_.detach() for s_ in list(segs)[:3]]
+    dn = nd.detach()
+    out["detached"] = [_dump_view(d) for d in det]
+    out["detached_node"] = [dn.x, dn.y, dn.z, dn.r, int(dn.type), int(dn.id), int(dn.pid)]
+    for i in range(t.number_of_nodes()):  # the owner is edited afterwards: detached copies stay
+        t.node(i).x = float(t.node(i).x) + 1000.0
+        t.node(i).r = 7.0
+    out["detached_after_owner_edit"] = [_dump_view(d) for d in det]
+    out["detached_node_after"] = [dn.x, dn.r]
+    out["attached_after_owner_edit"] = [_dump_view(b) for b in brs[:4]]
+    return out
+
+
+def _views_under_custom_names(ctx, case):
+    spec = G.spec_from_recipe(case["tree"])
+    tree = G.build(spec, share_ok=False)
+    r = G.same_under_renaming(_all_views, tree, level=case["hseed"] % 2)
+    ctx.count("views_compared_under_custom_column_names")
+    if r:
+        ctx.violation("custom-column-names", f"views / detached copies of a tree: {r}", case)
+
+
+def _big_tree_relations(ctx):
+    """Segments and adjacency of a tree with tens of thousands of nodes (products of ids and the
+    node count pass 2^31 beyond 46 340 nodes)."""
+    n = 50000 if ctx.seed % 2 else 70000
+    rc = {"shape": "recursive", "n": n, "numbering": "perm", "geom": "growth", "types": "soma",
+          "extras": 0, "seed": 900 + ctx.seed}
+    case = {"big_tree": rc}
+    ctx.case(case, klass="big-tree")
+    spec = G.spec_from_recipe(rc)
+    t = G.build(spec, share_ok=False)
+    pid = np.array(spec["pid"])
+    ctx.count("big_tree_relations_checked")
+    try:
+        A = t.get_adjacency_matrix().tocoo()
+        got = sorted(zip(A.row.tolist(), A.col.tolist()))
+    except Exception as e:
+        return ctx.violation("adjacency", f"get_adjacency_matrix of a {n}-node tree raised "
+                                          f"{type(e).__name__}: {str(e)[:120]}", case)
+    want = sorted((int(p), i) for i, p in enumerate(pid) if p >= 0)
+    if got != want or A.shape != (n, n):
+        return ctx.violation("adjacency", f"adjacency matrix of a {n}-node tree is not the parent "
+                                          f"relation ({len(got)} entries for {len(want)} edges)", case)
+    segs = t.get_segments()
+    pairs = sorted((int(s_.origin_id()[0]), int(s_.origin_id()[1])) for s_ in list(segs)[::997])
+    if len(segs) != n - 1 or any(pid[c] != p for p, c in pairs):
+        ctx.violation("tree-segments", f"segments of a {n}-node tree are not its (parent, child) "
+                                       f"pairs", case)
 
 
 def replay(ctx, case):
+    if "big_tree" in case:
+        return
+
     ctx.case(case)
     execute(ctx, case)
